@@ -38,6 +38,17 @@ Definition msg_end : list N :=   (* "was expecting the end of input" *)
   [119;97;115;32;101;120;112;101;99;116;105;110;103;32;116;104;101;32;101;110;100;32;111;102;32;105;110;112;117;116].
 Definition name_valid_input : list N := [97;32;118;97;108;105;100;32;105;110;112;117;116].   (* "a valid input" *)
 
+(* the terminal parsers: pure functions of the input and the position (no context, no recursion) *)
+Definition term_parse (inp : input) (t : terminal) (pos : N) : list node * option perr :=
+  match t with
+  | TRune ch =>     (* terminal.Rune of an ASCII rune: Reader.ReadRune *)
+    match byte_at inp pos with
+    | Some b => if b =? ch then ([NTerm [ch] (VRune ch) pos (pos + 1)], None)
+                else ([], Some (mk_err pos (CNotFound (quote_rune ch))))
+    | None => ([], Some (mk_err pos (CNotFound (quote_rune ch))))
+    end
+  end.
+
 Section Engine.
   Variable inp : input.
   Variable rules : list pexpr.
@@ -95,12 +106,9 @@ Section Engine.
 
     Definition parse_step (e : pexpr) (c : ctx) (stk : stack) (lrc : intmap) (pos : N) : outcome pres :=
       match e with
-      | PTerm (TRune ch) =>
-        match byte_at inp pos with
-        | Some b => if b =? ch then Ok ([NTerm [ch] (VRune ch) pos (pos + 1)], [], None, c)
-                    else Ok ([], [], Some (mk_err pos (CNotFound (quote_rune ch))), log_fail c pos (CNotFound (quote_rune ch)))
-        | None => Ok ([], [], Some (mk_err pos (CNotFound (quote_rune ch))), log_fail c pos (CNotFound (quote_rune ch)))
-        end
+      | PTerm t =>
+        let '(res, err) := term_parse inp t pos in
+        Ok (res, [], err, match res, err with [], Some e => log_fail c pos (ecause e) | _, _ => c end)
       | PEmpty => Ok ([NEmpty pos], [], None, c)
       | PEnd => if is_eof inp pos then Ok ([NEnd pos], [], None, c)
                 else Ok ([], [], Some (mk_err pos (COther msg_end)), log_fail c pos (COther msg_end))
